@@ -432,3 +432,18 @@ MUTANTS += [
   "old": "        taylor_expansion = self.expand_S_taylor(order, min_order=2)\n        # create an index list",
   "new": "        taylor_expansion = self.expand_S_taylor(order, min_order=1)\n        # create an index list"},
 ]
+
+_PRF = "adcgen/properties.py"
+_SMF = "adcgen/secular_matrix.py"
+MUTANTS += [
+ {"id": "c05-expval-right-block-from-left", "prop": "C05", "file": _PRF,
+  "old": "            block = (l_block[0], r_block[1])\n\n            if order is None:",
+  "new": "            block = (l_block[0], l_block[1])\n\n            if order is None:"},
+ {"id": "c05-expval-order-filter", "prop": "C05", "file": _PRF,
+  "old": "            if order is not None and max_order < order:\n                continue\n            # combine the two spaces",
+  "new": "            if order is not None and max_order <= order:\n                continue\n            # combine the two spaces"},
+ {"id": "c05-expval-block-table-offdiagonal", "prop": "C05", "file": _SMF,
+  "old": "                ret[block] = diag - dif", "new": "                ret[block] = diag"},
+ {"id": "c03-space-orders-table", "prop": "C03", "file": _SMF,
+  "old": "            ret[space] = order - i", "new": "            ret[space] = order - 2 * i"},
+]
